@@ -58,6 +58,10 @@ Covered ==
   /\ Cardinality({i \in Idx : Row(i).shape # "random"}) = Cardinality(TableKeys \cup ShapeKeys)   \* each row once
   /\ \A t \in AllTools : AllowedWithEffect(t) # {}
   /\ \A x \in Reasons : RefusedOnlyFor(x) # {}
+  /\ \A t \in QueueMutationTools : \E i \in Idx :            \* Admin-proxy mode: an allowed mutation was forwarded
+        /\ Row(i).shape = "proxy_minimal" /\ Row(i).tool = t /\ Trace[i].obs = "ok" /\ Trace[i].admin_posts >= 1
+  /\ \A t \in QueueReadTools : \E i \in Idx :
+        /\ Row(i).shape = "proxy_minimal" /\ Row(i).tool = t /\ Trace[i].obs = "ok" /\ Trace[i].admin_gets >= 1
   /\ \A s \in Shapes : \E i \in Idx : Row(i).shape = s
 
 \* one state; Covered is evaluated once as an invariant (row is the variable inherited from McpGateMC)
